@@ -4,14 +4,19 @@
    transformers BranchCtx / AcceptCtx / StopCommits / ...), a global write log.  One Start/Ret action pair per node kind.
    Refinement: at termination its outcome equals Meaning!Outcome for the same case (invariant Refines, checked by TLC
    for every case of the family).  The variable evs is the projection of the behaviour on the operations of context.go
-   - exactly what the verif hooks of /repo record - so a recorded hook trace must equal it (trace validation, B2).  *)
+   - exactly what the verif hooks of /repo record - so a recorded hook trace must equal it (trace validation, B2).
+   ERROR SELECTION (context.go deepestError / deepestErrorDepth, the error values built in nodes.go and parser.go): every
+   failing result carries the error [t, u] = (index of the token whose position the error reports - 0 when no position is
+   known -, is it an UnexpectedTokenError); every context carries de / dd, transformed by MaybeUpdate / StopUpd / Accept
+   exactly as in context.go; `eout` is the error the parse finally reports.  The properties do not say WHICH located
+   error a failing parse must report, so a disagreement here is model drift, not a violation (ErrorConforms).        *)
 EXTENDS Meaning, Json
 
 CONSTANT CasesFile
 Cases == JsonDeserialize(CasesFile)
 
-VARIABLES gi, ii, ki, done, ctl, ctxs, log, nid, ret, out, evs
-mvars == <<gi, ii, ki, done, ctl, ctxs, log, nid, ret, out, evs>>
+VARIABLES gi, ii, ki, done, ctl, ctxs, log, nid, ret, out, evs, eout
+mvars == <<gi, ii, ki, done, ctl, ctxs, log, nid, ret, out, evs, eout>>
 \* projection of a behaviour on the operations of context.go (what hook H4 logs), cursors 0-based as in Go
 N(i) == ToString(i)
 EvB(c) == <<"b," \o N(c.st.raw - 1) \o "," \o N(c.st.cur)>>
@@ -28,9 +33,13 @@ Toks == G.inputs[ii].toks
 KK == G.ks[ki]
 Env == [g |-> G, toks |-> Toks, K |-> KK]
 
-FE0 == [saw |-> FALSE, deep |-> 0, vals |-> <<>>, nn |-> FALSE]
+\* error values
+NoErr == [t |-> 0, u |-> FALSE, none |-> TRUE]
+E(t, u) == [t |-> t, u |-> u, none |-> FALSE]
+FE0 == [saw |-> FALSE, deep |-> 0, vals |-> <<>>, nn |-> FALSE, e |-> NoErr]
 F(n, self) == [n |-> n, self |-> self, ph |-> "start", i |-> 0, acc |-> <<>>, nn |-> FALSE, fe |-> FE0, a |-> 0, b |-> 0]
-Ret(k, vals, nn) == [k |-> k, vals |-> vals, nn |-> nn]
+RetE(k, vals, nn, e) == [k |-> k, vals |-> vals, nn |-> nn, e |-> e]
+Ret(k, vals, nn) == RetE(k, vals, nn, NoErr)
 NoRet == Ret("none", <<>>, FALSE)
 
 Top == ctl[Len(ctl)]
@@ -42,19 +51,36 @@ P == ctxs[Len(ctxs) - 1]        \* its parent (only used while a branch is open)
 KidsOf(n) == IF n.op = "union"
              THEN [j \in 1..Len(G.unions[n.u]) |-> [op |-> "prod", p |-> G.unions[n.u][j]]]
              ELSE n.kids
+PeekOf(c) == NxtFrom(Env, c.st.raw)                                  \* index of the token ctx.Peek() returns
+Unexpected(c) == E(PeekOf(c), TRUE)                                   \* &UnexpectedTokenError{Unexpected: *ctx.Peek()}
+MaxI(a, b) == IF a >= b THEN a ELSE b
+\* context.go MaybeUpdateError / the bookkeeping half of Stop / DeepestError
+MaybeUpdate(c, e) == IF c.st.cur >= c.dd THEN [c EXCEPT !.de = e, !.dd = c.st.cur] ELSE c
+StopUpd(p, b, e) == IF b.dd > p.dd THEN [p EXCEPT !.de = b.de, !.dd = b.dd]
+                    ELSE IF b.st.cur >= p.dd THEN [p EXCEPT !.de = e, !.dd = MaxI(b.st.cur, b.dd)]
+                    ELSE p
+Deepest(c, e) == IF c.st.cur >= c.dd THEN e ELSE IF ~c.de.none THEN c.de ELSE e
 LoopLim(n) == [min |-> IF n.mode = "plus" THEN 1 ELSE 0, max |-> IF n.mode = "opt" THEN 1 ELSE G.maxiter]
 
 \* --- the three context operations of context.go, as state transformers on `ctxs` ---
-BranchCtx(cs) == Append(cs, [st |-> cs[Len(cs)].st, pend |-> <<>>, nid0 |-> nid])
+BranchCtx(cs) == Append(cs, [st |-> cs[Len(cs)].st, pend |-> <<>>, nid0 |-> nid, dd |-> cs[Len(cs)].dd, de |-> cs[Len(cs)].de])
 AcceptCtx(cs) == LET b == cs[Len(cs)]  p == cs[Len(cs) - 1] IN
-                 Append(SubSeq(cs, 1, Len(cs) - 2), [p EXCEPT !.st = b.st, !.pend = p.pend \o b.pend])
+                 Append(SubSeq(cs, 1, Len(cs) - 2),
+                        [p EXCEPT !.st = b.st, !.pend = p.pend \o b.pend,
+                                  !.dd = IF b.dd >= p.dd THEN b.dd ELSE p.dd, !.de = IF b.dd >= p.dd THEN b.de ELSE p.de])
 DropCtx(cs) == Pop(cs)
+\* ctx.Stop(err, branch): the parent's deepest-error bookkeeping is updated whether or not the failure commits
+StopCtx(cs, e) == LET b == cs[Len(cs)]  p == cs[Len(cs) - 1] IN
+                  Append(SubSeq(cs, 1, Len(cs) - 2), StopUpd(p, b, e)) \o <<b>>
+\* the same update on the parent alone (group: ctx.MaybeUpdateError(err) before ctx.Stop)
+ParentUpd(cs, e) == LET b == cs[Len(cs)]  p == cs[Len(cs) - 1] IN
+                    Append(SubSeq(cs, 1, Len(cs) - 2), MaybeUpdate(p, e)) \o <<b>>
 StopCommits(cs) == KK >= 0 /\ cs[Len(cs)].st.cur > cs[Len(cs) - 1].st.cur + KK
 
 \* generic transition helpers
 Go(ctl2, ctxs2, log2, nid2, ret2) ==
   /\ ctl' = ctl2 /\ ctxs' = ctxs2 /\ log' = log2 /\ nid' = nid2 /\ ret' = ret2
-  /\ UNCHANGED <<gi, ii, ki, done, out>>
+  /\ UNCHANGED <<gi, ii, ki, done, out, eout>>
 Finish(ctxs2, log2, r) == Go(Pop(ctl), ctxs2, log2, nid, r)                 \* pop my frame, hand r to the caller
 Call(frame2, child, ctxs2, nid2) == Go(Append(SetTop(ctl, frame2), child), ctxs2, log, nid2, NoRet)
 
@@ -83,9 +109,9 @@ SeqStart == /\ Running /\ Top.ph = "start" /\ Top.n.op = "seq"
             /\ Call([Top EXCEPT !.ph = "wait", !.i = 1], F(Top.n.kids[1], Top.self), ctxs, nid)
 SeqRet == /\ Running /\ Top.ph = "wait" /\ Top.n.op = "seq" /\ ret.k # "none"
           /\ Emit(<<>>)
-          /\ CASE ret.k = "err" -> Finish(ctxs, log, Ret("err", Top.acc \o ret.vals, Top.nn \/ Len(ret.vals) > 0))
+          /\ CASE ret.k = "err" -> Finish(ctxs, log, RetE("err", Top.acc \o ret.vals, Top.nn \/ Len(ret.vals) > 0, ret.e))
                [] ret.k = "no" -> (IF Top.i = 1 THEN Finish(ctxs, log, Ret("no", <<>>, FALSE))
-                                   ELSE Finish(ctxs, log, Ret("err", Top.acc, Top.nn)))
+                                   ELSE Finish(ctxs, log, RetE("err", Top.acc, Top.nn, Unexpected(C))))
                [] ret.k = "ok" -> (IF Top.i = Len(Top.n.kids)
                                    THEN Finish(ctxs, log, Ret("ok", Top.acc \o ret.vals, TRUE))
                                    ELSE Call([Top EXCEPT !.i = Top.i + 1, !.acc = Top.acc \o ret.vals, !.nn = TRUE],
@@ -95,11 +121,13 @@ SeqRet == /\ Running /\ Top.ph = "wait" /\ Top.n.op = "seq" /\ ret.k # "none"
 AltStart == /\ Running /\ Top.ph = "start" /\ Top.n.op \in {"alt", "union"}
           /\ Emit(EvB(C))
             /\ Call([Top EXCEPT !.ph = "wait", !.i = 1], F(KidsOf(Top.n)[1], Top.self), BranchCtx(ctxs), nid)
+\* all alternatives failed: ctx.MaybeUpdateError(firstError); return firstValues, firstError
 AltExhaust(cs, fe) == IF fe.saw
-                      THEN Finish(cs, log, IF Top.n.op = "union" THEN Ret("err", <<>>, FALSE) ELSE Ret("err", fe.vals, fe.nn))
+                      THEN Finish(SetTop(cs, MaybeUpdate(cs[Len(cs)], fe.e)), log,
+                                  IF Top.n.op = "union" THEN RetE("err", <<>>, FALSE, fe.e) ELSE RetE("err", fe.vals, fe.nn, fe.e))
                       ELSE Finish(cs, log, Ret("no", <<>>, FALSE))
-AltNext(fe) == IF Top.i = Len(KidsOf(Top.n)) THEN AltExhaust(DropCtx(ctxs), fe)
-               ELSE Call([Top EXCEPT !.i = Top.i + 1, !.fe = fe], F(KidsOf(Top.n)[Top.i + 1], Top.self), BranchCtx(DropCtx(ctxs)), nid)
+AltNext(fe, cs) == IF Top.i = Len(KidsOf(Top.n)) THEN AltExhaust(DropCtx(cs), fe)
+                   ELSE Call([Top EXCEPT !.i = Top.i + 1, !.fe = fe], F(KidsOf(Top.n)[Top.i + 1], Top.self), BranchCtx(DropCtx(cs)), nid)
 AltRet == /\ Running /\ Top.ph = "wait" /\ Top.n.op \in {"alt", "union"} /\ ret.k # "none"
           /\ Emit(LET more == Top.i < Len(KidsOf(Top.n)) IN
                    CASE ret.k = "err" -> EvS(C, P, StopCommits(ctxs)) \o (IF StopCommits(ctxs) THEN EvA(C, P) ELSE IF more THEN EvB(P) ELSE <<>>)
@@ -107,15 +135,15 @@ AltRet == /\ Running /\ Top.ph = "wait" /\ Top.n.op \in {"alt", "union"} /\ ret.
                      [] OTHER -> (IF more THEN EvB(P) ELSE <<>>))
           /\ CASE ret.k = "err" ->
                    (IF StopCommits(ctxs)                                                      \* Stop() == true: Accept and fail
-                    THEN Finish(AcceptCtx(ctxs), log, IF Top.n.op = "union" THEN Ret("err", <<>>, FALSE) ELSE ret)
+                    THEN Finish(AcceptCtx(StopCtx(ctxs, ret.e)), log, IF Top.n.op = "union" THEN RetE("err", <<>>, FALSE, ret.e) ELSE ret)
                     ELSE AltNext(IF C.st.cur >= Top.fe.deep
-                                 THEN [saw |-> TRUE, deep |-> C.st.cur, vals |-> ret.vals, nn |-> ret.nn]
-                                 ELSE [Top.fe EXCEPT !.saw = TRUE]))
+                                 THEN [saw |-> TRUE, deep |-> C.st.cur, vals |-> ret.vals, nn |-> ret.nn, e |-> ret.e]
+                                 ELSE [Top.fe EXCEPT !.saw = TRUE], StopCtx(ctxs, ret.e)))
                [] ret.k = "ok" ->
                    (IF C.st.raw = P.st.raw /\ ~IsEOF(Env, P.st.raw)
                     THEN Go(ctl, ctxs, log, nid, Ret("bug", <<>>, FALSE))
                     ELSE Finish(AcceptCtx(ctxs), log, ret))
-               [] ret.k = "no" -> AltNext(Top.fe)
+               [] ret.k = "no" -> AltNext(Top.fe, ctxs)
 
 \* ---------------------------------------------------------------- groups
 GrpStart == /\ Running /\ Top.ph = "start" /\ Top.n.op = "grp"
@@ -124,7 +152,7 @@ GrpStart == /\ Running /\ Top.ph = "start" /\ Top.n.op = "grp"
                THEN Call([Top EXCEPT !.ph = "wait"], F(Top.n.kid, Top.self), ctxs, nid)
                ELSE Call([Top EXCEPT !.ph = "wait", !.a = 0], F(Top.n.kid, Top.self), BranchCtx(ctxs), nid)
 LoopFinish(cs, o, onn, m) ==
-  IF m >= G.maxiter THEN Finish(cs, log, Ret("err", <<>>, FALSE))
+  IF m >= G.maxiter THEN Finish(cs, log, RetE("err", <<>>, FALSE, E(PeekOf(cs[Len(cs)]), FALSE)))   \* "too many iterations"
   ELSE IF LoopLim(Top.n).min = 0 \/ onn THEN Finish(cs, log, Ret("ok", o, TRUE))
   ELSE Finish(cs, log, Ret("no", <<>>, FALSE))
 GrpRet == /\ Running /\ Top.ph = "wait" /\ Top.n.op = "grp" /\ ret.k # "none"
@@ -135,17 +163,21 @@ GrpRet == /\ Running /\ Top.ph = "wait" /\ Top.n.op = "grp" /\ ret.k # "none"
           /\ CASE Top.n.mode = "once" -> Finish(ctxs, log, ret)
                [] Top.n.mode = "nonempty" ->
                     (IF ret.k = "err" THEN Finish(ctxs, log, ret)
-                     ELSE IF Len(ret.vals) = 0 THEN Finish(ctxs, log, [ret EXCEPT !.k = "err"])
+                     ELSE IF Len(ret.vals) = 0 THEN Finish(ctxs, log, [ret EXCEPT !.k = "err", !.e = E(PeekOf(C), FALSE)])  \* "cannot be empty"
                      ELSE Finish(ctxs, log, ret))
                [] OTHER ->
                     (CASE ret.k = "err" ->
-                            (IF StopCommits(ctxs)
-                             THEN Finish(AcceptCtx(ctxs), log, Ret("err", Top.acc \o ret.vals, Top.nn \/ Len(ret.vals) > 0))
-                             ELSE LoopFinish(DropCtx(ctxs), Top.acc, Top.nn, Top.a))
+                            (LET cs1 == StopCtx(ParentUpd(ctxs, ret.e), ret.e) IN
+                             IF StopCommits(ctxs)
+                             THEN Finish(AcceptCtx(cs1), log, RetE("err", Top.acc \o ret.vals, Top.nn \/ Len(ret.vals) > 0, ret.e))
+                             ELSE LoopFinish(DropCtx(cs1), Top.acc, Top.nn, Top.a))
                        [] ret.k = "no" -> LoopFinish(DropCtx(ctxs), Top.acc, Top.nn, Top.a)
                        [] ret.k = "ok" ->
                             (IF C.st.raw = P.st.raw /\ LoopLim(Top.n).max > 1
-                             THEN Finish(DropCtx(ctxs), log, Ret("err", <<>>, FALSE))
+                             THEN \* the loop spins without progress up to MaxIterations: "too many iterations" at the same token
+                                  (LET cs1 == Append(SubSeq(ctxs, 1, Len(ctxs) - 2),
+                                                     [P EXCEPT !.dd = IF C.dd >= P.dd THEN C.dd ELSE P.dd, !.de = IF C.dd >= P.dd THEN C.de ELSE P.de]) IN
+                                   Finish(cs1, log, RetE("err", <<>>, FALSE, E(PeekOf(cs1[Len(cs1)]), FALSE))))
                              ELSE LET o == Top.acc \o ret.vals  onn == Top.nn \/ Len(ret.vals) > 0  m == Top.a + 1 IN
                                   IF m >= LoopLim(Top.n).max THEN LoopFinish(AcceptCtx(ctxs), o, onn, m)
                                   ELSE Call([Top EXCEPT !.acc = o, !.nn = onn, !.a = m], F(Top.n.kid, Top.self),
@@ -164,7 +196,7 @@ CapRet == /\ Running /\ Top.ph = "wait" /\ Top.n.op = "cap" /\ ret.k # "none"
                  c1 == [C EXCEPT !.st.fc = fc2]
                  cs2 == IF ret.nn THEN SetTop(ctxs, [c1 EXCEPT !.pend = Append(C.pend, d)]) ELSE SetTop(ctxs, c1)
              IN IF ret.k = "no" THEN Finish(SetTop(ctxs, c1), log, ret)
-                ELSE Finish(cs2, log, Ret(ret.k, <<[self |-> Top.self]>>, TRUE))
+                ELSE Finish(cs2, log, RetE(ret.k, <<[self |-> Top.self]>>, TRUE, ret.e))
 
 \* ---------------------------------------------------------------- production = struct value + Apply
 ProdStart == /\ Running /\ Top.ph = "start" /\ Top.n.op = "prod"
@@ -178,9 +210,16 @@ ProdRet == /\ Running /\ Top.ph = "wait" /\ Top.n.op = "prod" /\ ret.k # "none"
                   hdr == [new |-> id, p |-> Top.n.p, start |-> Top.b, pos |-> NxtFrom(Env, Top.b), end |-> C.st.raw]
                   ap == ApplySeq(G, IF DevApplyAll THEN C.pend ELSE own, 1, log)
                   rest == IF DevApplyAll THEN (IF ap.ok THEN <<>> ELSE C.pend) ELSE SubSeq(C.pend, 1, Top.a)
+                  applied == IF DevApplyAll THEN C.pend ELSE own
+                  bad == FirstBad(G, applied, 1)
+                  \* setField: the conversion error is reported at the first token of the capture (none if it is empty)
+                  ce == IF ap.ok THEN NoErr ELSE IF bad = 0 THEN E(0, FALSE) ELSE E(IF applied[bad].from < applied[bad].to THEN applied[bad].from ELSE 0, FALSE)
+                  \* a failing body: ctx.MaybeUpdateError(err) and the same error is returned
+                  c1 == IF ret.k = "err" THEN MaybeUpdate(C, ret.e) ELSE C
               IN IF ret.k = "no" THEN Finish(ctxs, log, Ret("no", <<>>, FALSE))
-                 ELSE Finish(SetTop(ctxs, [C EXCEPT !.pend = rest]), Append(ap.log, hdr),
-                             Ret(IF ret.k = "ok" /\ ~ap.ok THEN "err" ELSE ret.k, <<[node |-> id]>>, TRUE))
+                 ELSE Finish(SetTop(ctxs, [c1 EXCEPT !.pend = rest]), Append(ap.log, hdr),
+                             RetE(IF ret.k = "ok" /\ ~ap.ok THEN "err" ELSE ret.k, <<[node |-> id]>>, TRUE,
+                                  IF ret.k = "err" THEN ret.e ELSE ce))
 
 \* ---------------------------------------------------------------- negation / lookahead group: branch that is never accepted
 NegStart == /\ Running /\ Top.ph = "start" /\ Top.n.op = "neg"
@@ -190,7 +229,7 @@ NegStart == /\ Running /\ Top.ph = "start" /\ Top.n.op = "neg"
 NegRet == /\ Running /\ Top.ph = "wait" /\ Top.n.op = "neg" /\ ret.k # "none"
           /\ Emit(<<>>)
           /\ LET cs == DropCtx(ctxs)  c0 == cs[Len(cs)]  p == NxtFrom(Env, c0.st.raw) IN
-             IF ret.k = "ok" THEN Finish(cs, log, Ret("err", <<>>, FALSE))
+             IF ret.k = "ok" THEN Finish(cs, log, RetE("err", <<>>, FALSE, E(p, TRUE)))
              ELSE Finish(SetTop(cs, [c0 EXCEPT !.st = [raw |-> p + 1, cur |-> c0.st.cur + 1, fc |-> IF c0.st.fc = 0 THEN p ELSE c0.st.fc]]),
                          log, Ret("ok", <<[s |-> Toks[p].v]>>, TRUE))
 LookStart == /\ Running /\ Top.ph = "start" /\ Top.n.op = "look"
@@ -198,10 +237,11 @@ LookStart == /\ Running /\ Top.ph = "start" /\ Top.n.op = "look"
              /\ Call([Top EXCEPT !.ph = "wait"], F(Top.n.kid, Top.self), BranchCtx(ctxs), nid)
 LookRet == /\ Running /\ Top.ph = "wait" /\ Top.n.op = "look" /\ ret.k # "none"
           /\ Emit(<<>>)
-           /\ IF (ret.k = "ok") # (~Top.n.neg) THEN Finish(DropCtx(ctxs), log, Ret("err", <<>>, FALSE))
+           /\ IF (ret.k = "ok") # (~Top.n.neg) THEN Finish(DropCtx(ctxs), log, RetE("err", <<>>, FALSE, Unexpected(P)))
               ELSE Finish(DropCtx(ctxs), log, Ret("ok", <<>>, TRUE))
 
 \* ---------------------------------------------------------------- termination (parseOne)
+ErrStr(e) == IF e.none THEN "-" ELSE ToString(e.t) \o "," \o (IF e.u THEN "1" ELSE "0")
 Terminate == /\ ~done /\ (ctl = <<>> \/ ret.k = "bug")
              /\ LET st == ctxs[1].st
                     EmptyTok(e) == "inst" \in DOMAIN e /\ e.from >= e.to /\ FieldKind(G, Hdr(log, e.inst).p, e.f) = "token"
@@ -211,15 +251,22 @@ Terminate == /\ ~done /\ (ctl = <<>> \/ ret.k = "bug")
                            [] ret.k \in {"err", "no"} -> "err"
                            [] ret.k = "ok" -> IF ~G.trailing /\ ~IsEOF(Env, NxtFrom(Env, st.raw)) THEN "err"
                                               ELSE "ok " \o CanonInst(Env, log, ret.vals[1].node)
-                IN out' = o
+                    \* parser.go parseInto / parseOne: a node error is returned as it is; "no match" and trailing tokens go
+                    \* through DeepestError
+                    eo == CASE ret.k = "err" -> ret.e
+                            [] ret.k = "no" -> Deepest(ctxs[1], Unexpected(ctxs[1]))
+                            [] ret.k = "ok" /\ ~G.trailing /\ ~IsEOF(Env, NxtFrom(Env, st.raw)) -> Deepest(ctxs[1], Unexpected(ctxs[1]))
+                            [] OTHER -> NoErr
+                IN /\ out' = o /\ eout' = (IF o = "err" THEN eo ELSE NoErr)
+                   /\ (o = "err" => PrintT("ERR|" \o G.id \o "|" \o ToString(KK) \o "|" \o ToString(ii - 1) \o "|" \o ErrStr(eo)))
              /\ done' = TRUE /\ UNCHANGED <<gi, ii, ki, ctl, ctxs, log, nid, ret, evs>>
              /\ PrintT("EVS|" \o G.id \o "|" \o ToString(KK) \o "|" \o ToString(ii - 1) \o "|" \o JoinEvs(evs, 1))
 
 MInit == /\ gi \in 1..Len(Cases) /\ ii \in 1..Len(Cases[gi].inputs) /\ ki \in 1..Len(Cases[gi].ks)
          /\ done = FALSE /\ out = ""
          /\ ctl = <<F([op |-> "prod", p |-> Cases[gi].prods[1].name], 0)>>
-         /\ ctxs = <<[st |-> [raw |-> 1, cur |-> 0, fc |-> 0], pend |-> <<>>, nid0 |-> 1]>>
-         /\ log = <<>> /\ nid = 1 /\ ret = NoRet /\ evs = <<>>
+         /\ ctxs = <<[st |-> [raw |-> 1, cur |-> 0, fc |-> 0], pend |-> <<>>, nid0 |-> 1, dd |-> 0, de |-> NoErr]>>
+         /\ log = <<>> /\ nid = 1 /\ ret = NoRet /\ evs = <<>> /\ eout = NoErr
 
 MNext == \/ LitRef \/ UserLeaf \/ SeqStart \/ SeqRet \/ AltStart \/ AltRet \/ GrpStart \/ GrpRet \/ CapStart \/ CapRet
          \/ ProdStart \/ ProdRet \/ NegStart \/ NegRet \/ LookStart \/ LookRet \/ Terminate
@@ -245,4 +292,11 @@ Terminates == <>done
 Recorded == G.inputs[ii].ev[ki]
 IsPrefixOf(a, b) == Len(a) <= Len(b) /\ \A j \in 1..Len(a) : a[j] = b[j]
 TraceConforms == IsPrefixOf(evs, Recorded) /\ (done /\ out # "bug" => evs = Recorded)
+\* the error the real parser reported for this case, recorded as "t,u" (token index, 1 = UnexpectedTokenError), "-" when the
+\* parse succeeded and "?" when it could not be observed
+RecordedErr == G.inputs[ii].er[ki]
+ErrorConforms == (done /\ out \in {"err"} /\ RecordedErr # "?") => ErrStr(eout) = RecordedErr
+\* a failing result always carries an error value, and the bookkeeping depth never exceeds what some branch reached
+ErrCarried == ret.k = "err" => ~ret.e.none
+DepthSane == \A j \in 1..Len(ctxs) : ctxs[j].dd >= 0 /\ (ctxs[j].dd > 0 => ~ctxs[j].de.none)
 =============================================================================
